@@ -10,6 +10,14 @@ from pathlib import Path
 
 SEEDED = Path("/verif/seeded")
 NEEDS = {
+    "C03-h": "BitBirch now binds the threshold into the accept predicate (functools.partial stored in self._accept) when the merge settings are chosen in __init__/set_merge, and fit/_fit_buffers use that bound predicate instead of reading self.threshold; writers that bypass set_merge leave it stale. It only shows when the threshold is changed without set_merge and RAISED: recluster_inplace(extra_threshold>0) (tree.threshold reports T+d but the re-clustering pass still merges at T), or assigning the public tree.threshold attribute / sklearn set_params(threshold=...) before or between fits; constructor, set_merge(threshold=...), multiround and the CLI (extra_threshold=0) behave exactly as before.",
+    "C06-h": "_get_files_range_tuples now labels the round-1 outputs with the shard index parsed from input names that follow the library's '<name>.<idx>.npy' convention (kept only if the labels are in non-decreasing order, falling back to positional labels otherwise), so labels are no longer injective. It needs input files from two different families that share a shard index and are still non-decreasing in input order (e.g. lib_a.0000.npy, lib_b.0000.npy, lib_b.0001.npy): the two round-1 tasks then write the same round-1-bufs/idxs.label-0000-* files, and which one survives (hence the final clusters and centroids) depends on the completion order of the tasks; single-family inputs such as the test suite's fps.0001..0019.npy behave exactly as before.",
+    "C05-h": "run_multiround_bitbirch's start-of-run removal of leftover round-* buffer/index files was folded into a shared helper that is now only called when cleanup=True. It needs a second run into an output directory that still holds round-* files of an earlier run (kept with cleanup=False, or left by an interrupted run), with cleanup=False again and a set of round file names that does not cover the old ones (fewer input files, fewer batches, or no uint16 group this time): the stale pairs are globbed into the next round, so the final clusters contain indices of the earlier run (out of range / duplicated) and centroids no longer match their members.",
+    "C09-h": "The debug option max_fps was moved into the kwargs common to all multi-round rounds and threaded into BitBirch._fit_buffers (mirroring fit()), so tree-merging and final rounds mmap only the first max_fps rows (= clusters, not fingerprints) of each previous-round buffer file, and the zip with the index lists silently drops the rest. It only shows when run_multiround_bitbirch is called with max_fps set AND a merging round (bin_size >= 2, at least one midsection round) has written a buffer file with more than max_fps clusters: round-1 files never exceed max_fps rows, so the first merging round and all runs without max_fps are unaffected; from the next round on whole clusters (smallest first) fail to re-enter the tree.",
+    "C01-h": "_split_node now takes the capacity of the new sibling node from its caller (the parent node's / the tree's current branching factor) instead of from the node being split, so that set_merge(branching_factor=...) 'also applies below the root'. It only shows after fit -> set_merge(branching_factor=<smaller value>) -> fit with enough new clusters that a node built under the old, larger branching factor splits: more entries than the small sibling can hold are moved into it, the split aborts half-way with an IndexError after the node was already emptied, and labels fitted by the earlier successful fit are in no cluster any more (trees whose branching factor never decreases are unaffected).",
+    "C08-h": "recluster_inplace(shuffle=True) now re-inserts all leaf clusters as one list in the shuffled order instead of in per-dtype groups, and _fit_buffers casts a whole list to the dtype of its first buffer. It only shows when the tree holds a cluster of >= 256 members (uint16 counters) and the shuffle happens to put such a cluster first: every smaller cluster that is not merged afterwards is then stored with uint16 (or wider) counters, e.g. 1-member entries in uint16 (if a narrower buffer comes first the call raises instead; without shuffle, or with all clusters < 256 members, behaviour is unchanged).",
+    "C18-h": "Two sites: BitBirch.get_centroids(sort=True) now orders clusters of equal size by their first molecule index, and the sklearn wrapper's fit builds subcluster_centers_ from get_centroids() instead of _get_leaf_bfs(sort=True); labels_ / get_assignments still rank tied clusters in leaf-traversal order, so transform columns and predict labels point at a different cluster than labels_ does. It only shows when at least two clusters have the same size AND the tree has split at least once (more clusters than branching_factor, default 50), because inside one unsplit leaf traversal order already equals first-molecule order (30 tied clusters: no difference).",
+    "C04-h": "_ArrayMemPagesManager.from_bb_input was 'converted to bytes' for files with items wider than one byte (row size and release period now use itemsize), but np.memmap.offset, which is already in bytes, is multiplied by the itemsize too, so the start address of the released blocks lies offset*(itemsize-1) bytes BEFORE the mapped file (and is no longer page aligned). It is only visible when fitting from a .npy PATH holding a multi-byte integer dtype (unpacked int16/uint32/int64 ...) with more than 2 MiB of rows, so that a page release actually happens; uint8 files (all tests, all packed input) behave exactly as before and clusters are unchanged.",
     "C16-h": "_get_fps_file_shape_and_dtype (used by `bb fps-info` and the file-sequence indexer) now gets shape/dtype from np.load(path, mmap_mode='r') instead of parsing the .npy header; this is identical for every numeric file (valid, wrong-ndim, float, empty), but NumPy refuses to memory-map arrays with Python objects in the dtype, so `bb fps-info` crashes (exit 1, nothing flagged, remaining files not described) only when a described file/directory contains a well-formed object-dtype *.npy (e.g. SMILES strings saved next to the fingerprints); a truncated data section makes it fail as well.",
     "C12-h": "_py_similarity: the uint64-word reinterpretation that _popcount used on the (always fresh, contiguous) AND result was factored into _as_words() and is now also applied independently to each operand of the AND in _jt_sim_packed_precalc_cardinalities; when exactly one operand can be viewed as words (packed width a multiple of 8 bytes, and one of the two is not contiguous along its last axis: Fortran-ordered or column-strided row matrix vs. contiguous query, or contiguous matrix vs. strided query vector) the two fall out of step: for 8-byte (64-bit) fingerprints the uint8 and uint64 operands broadcast silently and jt_sim_packed returns wrong similarities (even > 1), for wider multiples of 8 bytes it raises a broadcast ValueError. C-contiguous inputs, widths not a multiple of 8 bytes, and a non-contiguous matrix paired with its own (equally strided) rows, as in jt_sim_matrix_packed, are unaffected.",
     "C07-h": "DiameterMerge no longer computes the iSIM and compares it with the threshold; a new helper _jt_isim_reaches tests numerator >= threshold * denominator to 'skip the division'. The two forms only disagree through floating-point rounding when the would-be cluster's iSIM is exactly equal to a threshold whose double is slightly above the decimal (e.g. threshold=0.55 with numerator/denominator 55/100, 99/180, 110/200: 0.55*100 == 55.00000000000001), so a merge that the reference and the legacy uint8/int64 code accept is refused; no effect for 0.65 and the other common thresholds or for non-boundary iSIM values.",
